@@ -153,6 +153,15 @@ static std::string run_cell (const Group &g, const Cell &c, const std::vector<ui
 			return "accepted_data_corrupted|bytes accepted before the fault (offset " + std::to_string (header_size) + ".." + std::to_string (snapshot.size ()) + ") differ afterwards from both the snapshot and the fault-free file, first at " + std::to_string (i) + " (final size " + std::to_string (mf.data.size ()) + ", fault-free size " + std::to_string (fault_free_final.size ()) + ")" ;
 		}
 	}
+	// read/write workload: it only appends, so the audio that was in the file when it was opened must still be there, whatever fails
+	// (audio region = the last frames x channels x bytes of the original file, up to a possible terminator / pad byte; header fields
+	// may legitimately be rewritten from what the failing I/O layer answered)
+	// (not under a lying length answer: a layer that reports the file 17 bytes shorter makes "append at the end" land inside the old audio by its own account)
+	if (g.wl == W_RDWR && !valid.empty () && mf.data.size () >= valid.size () && (c.kind == FK_ZERO || c.kind == FK_SHORT || c.kind == FK_SEEKFAIL))
+	{	const Codec *cq = codec_of (g.format) ; size_t alen = cq && cq->bytes > 0 ? (size_t) (4 * 500) * (size_t) g.ch * (size_t) cq->bytes : 0 ;
+		if (alen > 0 && alen + 2 < valid.size ()) for (size_t i = valid.size () - alen ; i + 2 < valid.size () ; i++) if (mf.data [i] != valid [i])
+			return std::string ("existing_data_corrupted|(fault hit a '") + mf.fault_cb + "' callback) byte " + std::to_string (i) + " of the audio that was in the file when it was opened read/write changed (" + std::to_string (valid [i]) + " -> " + std::to_string (mf.data [i]) + ")" ;
+	}
 	if (leak_check && __lsan_do_recoverable_leak_check ()) return "memory_leak|" ;
 	return "" ;
 }
